@@ -2,6 +2,8 @@ package props
 
 import (
 	"fmt"
+	"os"
+	"sync"
 	"sort"
 	"strings"
 
@@ -38,11 +40,16 @@ type Scenario struct {
 	// menu, up to MenuDepth requests: enumerates operation sequences.
 	Menu      []ReqF
 	MenuDepth int
+	Par       int   // explore this scenario with that many concurrent explorer workers
 	MenuFirst *ReqF // if set, the first request of the menu client is this one (splits a job)
 
-	snap      []byte // database image after Setup (Setup is deterministic and sequential)
+	snapMu    sync.Mutex
+	snap      *world.Image // database image after Setup (Setup is deterministic and sequential)
+	snaps     map[int]*world.Image // per explorer worker: its own source connection
 	snapClock int64
 }
+
+var debugDump = os.Getenv("VERIF_DEBUG_DUMP") != ""
 
 type runState struct {
 	next    []int
@@ -98,9 +105,18 @@ func (sc *Scenario) RunOnce(ch *vx.Chooser, keepLog bool) (res *ExecResult) {
 		mons = sc.Monitors()
 	}
 	cfg := sc.Cfg
-	if sc.Setup != nil && sc.snap != nil {
-		cfg.Image = sc.snap
+	sc.snapMu.Lock()
+	haveSnap := sc.snap != nil
+	if sc.Setup != nil && haveSnap {
+		if sc.snaps == nil {
+			sc.snaps = map[int]*world.Image{}
+		}
+		if sc.snaps[ch.Worker] == nil {
+			sc.snaps[ch.Worker] = &world.Image{Bytes: sc.snap.Bytes}
+		}
+		cfg.Image = sc.snaps[ch.Worker]
 	}
+	sc.snapMu.Unlock()
 	w := world.New(cfg, mons...)
 	w.KeepLog = keepLog
 	w.Clock = sc.Clock0
@@ -109,6 +125,7 @@ func (sc *Scenario) RunOnce(ch *vx.Chooser, keepLog bool) (res *ExecResult) {
 			if d, ok := r.(vx.Divergence); ok {
 				panic(d)
 			}
+
 			w.Violate("panic:"+firstLine(fmt.Sprint(r)), "panic on the kernel thread: %v", r)
 		}
 		res.Viol = w.Viol
@@ -123,16 +140,21 @@ func (sc *Scenario) RunOnce(ch *vx.Chooser, keepLog bool) (res *ExecResult) {
 		}()
 	}()
 	if sc.Setup != nil {
-		if sc.snap != nil {
+		if haveSnap {
 			w.Clock = sc.snapClock
 		} else {
 			sc.Setup(w)
 			if len(w.Viol) == 0 && len(w.Pending()) == 0 {
-				sc.snap, sc.snapClock = w.Snapshot(), w.Clock
+				sc.snapMu.Lock()
+				sc.snap, sc.snapClock = &world.Image{Bytes: w.Snapshot()}, w.Clock
+				sc.snapMu.Unlock()
 			}
 		}
 	}
 	w.Step, w.Log = 0, nil
+	if debugDump {
+		fmt.Printf("--- state after setup (snapshot=%v, clock=%d)\n%s", cfg.Image != nil, w.Clock, w.Dump().Text())
+	}
 	for _, m := range mons {
 		m.OnStart(w)
 	}
@@ -170,6 +192,14 @@ func (sc *Scenario) RunOnce(ch *vx.Chooser, keepLog bool) (res *ExecResult) {
 		sc.Epilogue(w)
 	}
 	w.End()
+	if debugDump {
+		d := w.Dump()
+		fmt.Printf("--- schedules at end: ")
+		for _, s := range d.Schedules {
+			fmt.Printf("%s next=%d; ", s.Id, s.NextRunTime)
+		}
+		fmt.Printf(" promises=%d\n", len(d.Promises))
+	}
 	var b strings.Builder
 	for _, r := range w.Reqs[nsetup:] {
 		fmt.Fprintf(&b, "%s=%s;", r.Id, world.RenderResponse(r))
